@@ -46,18 +46,34 @@ static nsync_time w_ready (void *v, struct nsync_waiter_s *nw) {
 	vrt_note ("re %d %d %s", vrt_self (), x->j, tm_str (r, b));
 	return r;
 }
+/* shadow bookkeeping for "a broadcast reaches every registered caller": REG(t,j) = caller t is registered on object j,
+   MUST(t) = a broadcast was issued on a cv on which t was registered, before t's deadline: t must not report a timeout */
+#define REG(t,j) (100 + (t) * 8 + (j))
+#define MUST(t) (200 + (t))
+#define DLS(t) (220 + (t))
+/* called before (phase 0) and after (phase 1) nsync_cv_broadcast on object j: callers registered before the call started whose
+   deadline has still not been reached when the call has RETURNED were covered by it */
+static void note_broadcast (int j, int phase) {
+	int t, me = vrt_self ();
+	for (t = 1; t < 12; t++) {
+		if (phase == 0) vrt_sh_set (240 + t, vrt_sh_get (REG (t, j)) ? me : 0);
+		else if (vrt_sh_get (240 + t) == me && vrt_now_ns () < vrt_sh_get (DLS (t))) vrt_sh_set (MUST (t), 1);
+	}
+}
 static int w_enqueue (void *v, struct nsync_waiter_s *nw) {
 	struct wrapv *x = (struct wrapv *) v;
 	int r;
 	vrt_note ("qb %d %d", vrt_self (), x->j);
 	r = (*x->f->enqueue) (x->v, nw);
 	vrt_note ("qe %d %d %d", vrt_self (), x->j, r);
+	if (r) vrt_sh_set (REG (vrt_self (), x->j), 1);
 	return r;
 }
 static int w_dequeue (void *v, struct nsync_waiter_s *nw) {
 	struct wrapv *x = (struct wrapv *) v;
 	int r;
 	vrt_note ("db %d %d", vrt_self (), x->j);
+	vrt_sh_set (REG (vrt_self (), x->j), 0);
 	r = (*x->f->dequeue) (x->v, nw);
 	vrt_note ("de %d %d %d", vrt_self (), x->j, r);
 	return r;
@@ -84,7 +100,7 @@ static void make_all_ready (void) {
 		if (kind_of[i] == 0) { vrt_note ("ab %d notify %d", vrt_self (), i); nsync_note_notify (notes[i]); vrt_note ("ae %d", vrt_self ()); }
 		else if (kind_of[i] == 1) {
 			if (vrt_sh_add (DEC (i), 1) == 1) { vrt_note ("ab %d add %d -1", vrt_self (), i); nsync_counter_add (ctrs[i], -1); vrt_note ("ae %d", vrt_self ()); }
-		} else { vrt_sh_set (SIGNALLED (i), 1); vrt_note ("ab %d broadcast %d", vrt_self (), i); nsync_cv_broadcast (&cvs[i]); vrt_note ("ae %d", vrt_self ()); }
+		} else { vrt_sh_set (SIGNALLED (i), 1); note_broadcast (i, 0); vrt_note ("ab %d broadcast %d", vrt_self (), i); nsync_cv_broadcast (&cvs[i]); vrt_note ("ae %d", vrt_self ()); note_broadcast (i, 1); }
 	}
 }
 
@@ -111,6 +127,8 @@ static void caller (void *a) {
 	if (use_mu) { nsync_mu_lock (&mu); vrt_note ("mulock %d", vrt_self ()); vrt_acquired (&mu, 1); }
 	{
 		long u0 = vrt_sh_get (UNLOCKS (vrt_self ())), l0 = vrt_sh_get (LOCKS (vrt_self ()));
+		vrt_sh_set (DLS (vrt_self ()), k == 0 ? 0x7fffffffffffffffL : (long) ts_ns (dl));
+		vrt_sh_set (MUST (vrt_self ()), 0);
 		vrt_note ("call %d %d %s %d %s", vrt_self (), use_mu, tm_str (dl, tb), nobj, desc);
 		r = deep_call (3, use_mu, dl, nobj, pw);
 		vrt_note ("ret %d %d", vrt_self (), r);
@@ -129,6 +147,7 @@ static void caller (void *a) {
 		vrt_count ("ret_timeout");
 		if (k == 0) vrt_fail ("C11", "no deadline but returned count");
 		if (vrt_now_ns () < ts_ns (dl)) vrt_fail ("C11", "returned count before the deadline");
+		if (vrt_sh_get (MUST (vrt_self ()))) vrt_fail ("C11", "a broadcast was issued on a condition variable this call was registered on, before its deadline, yet it slept on and returned count");
 	}
 	if (use_mu) { vrt_releasing (&mu, 1); vrt_note ("muunlock %d", vrt_self ()); nsync_mu_unlock (&mu); }
 	/* the frame of nsync_wait_n (and deep_call) is dead now: wake everything; any leftover registration is touched */
@@ -144,7 +163,7 @@ static void actor (void *a) {
 	} else {
 		vrt_sh_set (SIGNALLED (i), 1);
 		if (vrt_rand (2)) { vrt_note ("ab %d signal %d", vrt_self (), i); nsync_cv_signal (&cvs[i]); }
-		else { vrt_note ("ab %d broadcast %d", vrt_self (), i); nsync_cv_broadcast (&cvs[i]); }
+		else { note_broadcast (i, 0); vrt_note ("ab %d broadcast %d", vrt_self (), i); nsync_cv_broadcast (&cvs[i]); note_broadcast (i, 1); }
 		vrt_note ("ae %d", vrt_self ());
 	}
 	vrt_count ("actor");
